@@ -168,7 +168,7 @@ def run_property(pid, tier="quick", repo=None, write_evidence=True, out=sys.stdo
         # checker self-test: every seeded single-instance breakage must be reported on its instance
         from . import variants
         selftest = []
-        for v in variants.load(pid):
+        for v in variants.load(pid) + variants.load_seeded(pid):
             st, msg = variants.run_variant(v)
             selftest.append({"variant": v["name"], "rule": v.get("rule"), "status": st, "report": msg[:300]})
             print("%s selftest %-8s %s" % (pid, st, v["name"]), file=out)
